@@ -46,7 +46,7 @@ func init() {
 		hub := &spyHub{per: []*Spies{newSpies()}}
 		installSpies(e, hub)
 		for _, g := range c.Late {
-			e.AddGlobal(g[0], g[1])
+			applyLate(e, g[0], g[1])
 		}
 		if c.Debug {
 			e.SetDebug(true)
